@@ -110,7 +110,8 @@ def main():
             res["demo_with_change_tail"] = outs1[-1][-600:] if outs1 else ""
             rc, out = sh("cargo test --workspace --no-fail-fast --offline 2>&1 | grep -E '^test result|FAILED|failed|^error' | head -40", cwd=WT)
             fails = [l for l in out.splitlines() if ("FAILED" in l or "failed" in l) and "0 failed" not in l]
-            real = [l for l in fails if "test_repair_auth_unauth" not in l and not l.startswith("test result") and "error: test failed" not in l and "failed to" not in l]
+            # failing TESTS other than the known-flaky one (its assertion message and the summary lines are not tests)
+            real = [l for l in fails if re.match(r"test \S+ \.\.\. FAILED", l.strip()) and "test_repair_auth_unauth" not in l]
             res["suite_with_change"] = dict(summary=[l for l in out.splitlines() if l.startswith("test result")],
                                             failing_lines=fails, passes_except_known_flaky=(len(real) == 0 and "error[" not in out))
         sh("git reset -q --hard && git clean -fdq -e target", cwd=WT)
